@@ -45,7 +45,7 @@ def c2_eta(eta):
 def hs_system(flag):
     """a System that has already been used once with another diameter, density and domain (parameter sweeps re-use one System)"""
     P = target()
-    s = P.System(['A'], kT=1.0)
+    s = P.System(['A'])
     s.domain = P.Domain(length=64, dr=0.25)
     s.density['A'] = 0.01
     s.diameter['A'] = 0.5
@@ -64,7 +64,7 @@ def solve_hs(eta, L, dr, flag, guess=None, swept=None):
         s.domain = P.Domain(length=L, dr=dr)
         s.density['A'] = 6.0 * eta / math.pi
     else:
-        s = P.System(['A'], kT=1.0)
+        s = P.System(['A'])
         s.domain = P.Domain(length=L, dr=dr)
         s.density['A'] = 6.0 * eta / math.pi
         s.diameter['A'] = 1.0
